@@ -1,6 +1,6 @@
 (* C09 - file data written through libext2fs reads back exactly: the proved part is how a request is
    cut into per-block rounds *)
-From E2V Require Import FileIO.Chunks FileIO.ChunksProofs FileIO.FileSpec FileIO.FileSpecProofs.
+From E2V Require Import FileIO.Chunks FileIO.ChunksProofs FileIO.FileSpec FileIO.FileSpecProofs FileIO.FileBuf FileIO.FileBufProofs.
 Local Open Scope N_scope.
 
 (* every request, at every position and block size: the rounds start where the previous one ended,
@@ -44,6 +44,49 @@ Theorem punch_zeroes_exactly_its_blocks : forall l bs a b i, a <= b ->
 Proof. intros l bs a b i H. split; [apply punch_length; assumption|apply punch_nth; assumption]. Qed.
 Print Assumptions punch_zeroes_exactly_its_blocks.
 
+
+(* ---- the one-block buffer of ext2_file_t (repaired code) refines that reference, round by round.
+   [raw s i] is the byte a reader gets at position i (through the buffer for the buffered block, through the
+   block map otherwise); [Inv] says: a clean buffer equals the mapped block, the cached physical block is
+   the mapped one, logical blocks never share a physical block, and nothing but zeros lies behind the end. *)
+Theorem buffer_write_round_refines : forall s b start c data, Inv s -> 0 < c -> start + c <= bs s ->
+  let s' := write_round s b start c data in
+  Inv s' /\ bs s' = bs s /\ fsize s' = Nat.max (fsize s) (b * bs s + start + c) /\
+  forall i, raw s' i = if (b * bs s + start <=? i) && (i <? b * bs s + start + c) then data (i - (b * bs s + start)) else raw s i.
+Proof. exact write_round_spec. Qed.
+Print Assumptions buffer_write_round_refines.
+
+Theorem buffer_read_round_returns_content : forall s b, Inv s ->
+  let '(s', blk) := read_round s b in
+  Inv s' /\ bs s' = bs s /\ fsize s' = fsize s /\ (forall i, raw s' i = raw s i) /\
+  forall o, o < bs s -> blk o = raw s (b * bs s + o).
+Proof. exact read_round_spec. Qed.
+Print Assumptions buffer_read_round_returns_content.
+
+(* truncation and growth: every byte below the new size is what it was, everything else reads zero,
+   also after the file grows again (the invariant keeps the zeros behind the end) *)
+Theorem buffer_set_size_refines : forall s pb n, Inv s ->
+  let s' := set_size s pb n in
+  Inv s' /\ bs s' = bs s /\ fsize s' = n /\ forall i, raw s' i = if i <? n then raw s i else 0.
+Proof. exact set_size_spec. Qed.
+Print Assumptions buffer_set_size_refines.
+
+Theorem buffer_flush_invisible : forall s, Inv s -> Inv (flush s) /\ forall i, raw (flush s) i = raw s i.
+Proof. intros s I. split; [apply flush_inv; assumption|apply flush_raw; assumption]. Qed.
+Print Assumptions buffer_flush_invisible.
+
+(* the code as pinned kept the buffered block and its physical block number across a truncation:
+   write block 3, truncate in front of it, write it again - the byte is gone once the buffer moves on *)
+Theorem truncate_keeping_the_buffer_refuted :
+  let s1 := write_round (finit 4) 3 0 4 (fun _ => 7) in
+  let s2 := trunc_part_unrepaired (zero_part s1 3 12) (fsize s1) 12 in
+  let s3 := write_round s2 3 0 1 (fun _ => 9) in
+  raw (sync_to s3 0) 12 = 0 /\ raw (sync_to (write_round (set_size s1 3 12) 3 0 1 (fun _ => 9)) 0) 12 = 9.
+Proof. vm_compute. split; reflexivity. Qed.
+Print Assumptions truncate_keeping_the_buffer_refuted.
+
+Example finit_inv : Inv (finit 4).
+Proof. constructor; cbn; try lia; try discriminate. Qed.
 
 Example spec_example :
   fst (f_step 4 (fst (f_step 4 (fst (f_step 4 [1; 2; 3] (FWrite 6 [9; 9]))) (FSetSize 5))) (FSetSize 8)) = [1; 2; 3; 0; 0; 0; 0; 0] /\
